@@ -567,6 +567,8 @@ struct Prog {
     feats: Vec<&'static str>,
     prelude: bool,
     helper: bool,
+    /// module name (`compile_to_bytecode(name, …)`, `Precompiled.run_expr(…, name, …)`)
+    name: String,
 }
 
 fn gen_program(rng: &mut Rng, prelude: bool, helper: bool) -> Prog {
@@ -696,7 +698,77 @@ fn gen_program(rng: &mut Rng, prelude: bool, helper: bool) -> Prog {
         feats: g.feats.into_iter().collect(),
         prelude,
         helper,
+        name: "test".into(),
     }
+}
+
+
+// ------------------------------------------------------------------------------------------
+// Stream A': names and strings that need escaping in every string-carrying position
+// ------------------------------------------------------------------------------------------
+
+/// Operators (a backslash may not come first: `\` starts a lambda). The first eight need a JSON escape.
+const OPS: &[&str] = &[
+    "/\\", "|\\|", "<\\>", "+\\+", "~\\~", "/\\/\\", "-\\", "^\\^", "*\\*", "<+>", "|>", "%%", "<|>", "&&&", "<$", "=<<",
+];
+
+fn odd_string(rng: &mut Rng) -> String {
+    // source text of a string literal
+    match rng.below(10) {
+        0 => "\"q\\\"uote \\\\ back\"".into(),
+        1 => "\"tab\\t nl\\n cr\\r\"".into(),
+        2 => format!("\"raw control \u{1} \u{7f} \u{1f} end\""),
+        3 => "\"ü ☃ 𝄞 \u{2028} \u{feff} \u{10ffff}\"".into(),
+        4 => format!("\"{}\\\"{}\\\\{}\"", "a".repeat(3000), "b".repeat(3000), "c".repeat(3000)),
+        5 => "r\"raw \\ back \\n\"".into(),
+        6 => "\"\\\\\\\\\\\"\\\"\"".into(),
+        7 => "\"{\\\"Marked\\\":[0,\\\"x\\\"]}\"".into(),
+        8 => "\"/\\\\\"".into(),
+        _ => "\"\"".into(),
+    }
+}
+
+fn gen_names(rng: &mut Rng) -> Prog {
+    let pick2 = |rng: &mut Rng| -> (String, String) {
+        let a = rng.below(OPS.len() as u64) as usize;
+        let mut b = rng.below(OPS.len() as u64) as usize;
+        if b == a {
+            b = (a + 1) % OPS.len();
+        }
+        (OPS[a].to_string(), OPS[b].to_string())
+    };
+    let (o1, o2) = pick2(rng);
+    let s1 = odd_string(rng);
+    let s2 = odd_string(rng);
+    let doc = *rng.pick(&["doc with \"quotes\", back\\slash and tab\there", "plain doc", "ünï ☃ \\n not a newline", "/\\ \\/ \\\\"]);
+    let (feat, body): (&'static str, String) = match rng.below(9) {
+        0 => ("name:let-infix", format!(
+            "#[infix(left, 5)]\nlet ({o1}) a b = if a #Int< b then a else b\n#[infix(right, 6)]\nlet ({o2}) a b = a #Int+ b\n{{ lo = 3 {o1} 7, p = ({o1}) 1 2, q = 1 {o2} 2 {o2} 3, s = {s1} }}\n")),
+        1 => ("name:argument", format!(
+            "let app ({o1}) x = x {o1} x\nlet k ({o2}) = ({o2}) #Int+ 1\nlet g x = \\({o1}) -> x #Int+ ({o1})\n{{ a = app (\\a b -> a #Int+ b) 4, b = k 1, c = g 1 2 }}\n")),
+        2 => ("name:record-field", format!(
+            "let r = {{\n    #[infix(left, 5)]\n    ({o1}) = \\a b -> a #Int* b,\n    #[infix(left, 5)]\n    ({o2}) = 7\n}}\nlet {{ ({o1}) }} = r\n{{ x = r.({o1}) 2 3, y = 4 {o1} 5, z = r.({o2}), r }}\n")),
+        3 => ("name:pattern-field", format!(
+            "let r = {{\n    #[infix(left, 5)]\n    ({o1}) = 1,\n    #[infix(left, 5)]\n    ({o2}) = {s1}\n}}\nlet {{ ({o1}), ({o2}) = q }} = r\n{{ a = ({o1}), b = q }}\n")),
+        4 => ("name:rec-group", format!(
+            "rec\n#[infix(left, 5)]\nlet ({o1}) a b = if a #Int< 1 then b else (a #Int- 1) {o2} b\n#[infix(left, 5)]\nlet ({o2}) a b = a {o1} (b #Int+ 1)\nin\n{{ ({o1}), r = 3 {o1} 0 }}\n")),
+        5 => ("name:upvar", format!(
+            "#[infix(left, 5)]\nlet ({o1}) a b = a #Int- b\nlet mk ({o2}) = \\y -> (({o2}) {o1} y) {o1} 1\n{{ f = mk 10, v = mk 10 3 }}\n")),
+        6 => ("name:doc-and-strings", format!(
+            "/// {doc}\nlet f' x = x #Int+ 1\ntype T' a = | A' a | B'\n/// {doc}\n#[infix(left, 5)]\nlet ({o1}) a b = a\n{{ f', v' = A' (f' 1), ({o1}), s = {s1}, t = [{s1}, {s2}] }}\n")),
+        7 => ("name:string-tables", format!(
+            "let r = {{ a = {s1}, b = {s2} }}\nlet get x = x.b\n{{ u = get r, w = r.a, arr = [{s2}], nested = {{ deep = {{ s = {s1} }} }} }}\n")),
+        _ => ("name:variant-and-type", format!(
+            "type Op' a = | Leaf' a | Node' (Op' a) (Op' a)\nrec let sum' t =\n    match t with\n    | Leaf' x' -> x'\n    | Node' l' r' -> sum' l' #Int+ sum' r'\nin\n#[infix(left, 5)]\nlet ({o1}) l r = Node' l r\n{{ n = sum' (Leaf' 1 {o1} Leaf' 2 {o1} Leaf' 3), s = {s1} }}\n")),
+    };
+    let name = match rng.below(8) {
+        0 => "odd.name",
+        1 => "we\"ird",
+        2 => "back\\slash",
+        3 => "ünï☃",
+        _ => "test",
+    };
+    Prog { src: body, feats: vec![feat, if name == "test" { "modname:plain" } else { "modname:odd" }], prelude: false, helper: false, name: name.to_string() }
 }
 
 fn g_atomic(e: &str) -> String {
@@ -1383,6 +1455,50 @@ fn de_payload_norm(vm: &RootedThread, text: &[u8], map_in: &std::collections::Ha
     }
 }
 
+
+/// Text layer: serde_json's escaping / unescaping of generated strings vs `JsonStr.escape` /
+/// `JsonStr.unescape`.
+fn stream_text(out: &mut Out, rng: &mut Rng, n: usize) {
+    let pool: Vec<char> = "\"\\/\u{8}\u{c}\n\r\t\u{0}\u{1}\u{b}\u{1f}\u{7f} abzAZ09:{}[],ü☃\u{2028}\u{feff}\u{ffff}\u{10000}𝄞\u{10ffff}".chars().collect();
+    for i in 0..n {
+        let len = rng.below(12) as usize;
+        let s: String = (0..len)
+            .map(|_| if rng.chance(1, 6) { char::from_u32(rng.below(0x30) as u32).unwrap_or('a') } else { *rng.pick(&pool) })
+            .collect();
+        let js = serde_json::to_string(&s).unwrap();
+        let inner = &js[1..js.len() - 1];
+        out.case(&format!("esc {}", gv::quote(&s)), &gv::quote(inner));
+        if inner != s {
+            out.count("text:needs-escape");
+        }
+        out.class(format!("text:esc:{}", inner.matches('\\').count().min(6)));
+        // reading: serde_json's own output, and variations of it
+        let mut e = inner.to_string();
+        match rng.below(8) {
+            0 => e = e.replace("\\u00", "\\u00").to_uppercase().replace("\\U", "\\u").replace("\\N", "\\n").replace("\\T", "\\t").replace("\\R", "\\r").replace("\\B", "\\b").replace("\\F", "\\f"),
+            1 => e.push_str("\\/"),
+            2 => e.push_str("\\q"),
+            3 => e.push_str("\\u12"),
+            4 => e.push('\\'),
+            5 => e.push('\u{1}'),
+            6 => e.push_str("\\u00e9\\u2603"),
+            _ => {}
+        }
+        let text = format!("\"{}\"", e);
+        let pl = match serde_json::from_str::<String>(&text) {
+            Ok(r) => format!("(ok {})", gv::quote(&r)),
+            Err(_) => "err".to_string(),
+        };
+        out.count(&format!("text:unesc:{}", if pl == "err" { "err" } else { "ok" }));
+        out.case(&format!("unesc {}", gv::quote(&e)), &pl);
+        // model-independent: serde_json reads back what it wrote
+        if serde_json::from_str::<String>(&js).ok().as_deref() != Some(s.as_str()) {
+            out.oracle_fail("text:json-string-roundtrip", "serde_json does not read back a string it wrote", json!({"kind": "dag", "src": s}));
+        }
+        let _ = i;
+    }
+}
+
 /// Cyclic value graphs (closures of recursive bindings): the generator knows the graph, including
 /// where the cycle is entered; the model term uses `(c addr c upvar…)` for a closure (function part
 /// elided on both sides) and `(p addr sort)` for the back edge.
@@ -1904,7 +2020,7 @@ fn check_program(
     systematic: bool,
 ) {
     let replay = |extra: serde_json::Value| {
-        let mut r = json!({"kind": "program", "src": p.src, "prelude": p.prelude, "helper": p.helper});
+        let mut r = json!({"kind": "program", "src": p.src, "prelude": p.prelude, "helper": p.helper, "name": p.name});
         if let (Some(o), Some(e)) = (r.as_object_mut(), extra.as_object()) {
             for (k, v) in e {
                 o.insert(k.clone(), v.clone());
@@ -1913,7 +2029,7 @@ fn check_program(
         r
     };
     let shape = p.feats.join("+");
-    let direct: Result<String, String> = match run_source(&vs.src, "test", &p.src) {
+    let direct: Result<String, String> = match run_source(&vs.src, &p.name, &p.src) {
         Ok(v) => Ok(v),
         Err(e) if e.starts_with("PANIC") => {
             out.count("A:source-panic");
@@ -1938,7 +2054,7 @@ fn check_program(
     for f in &p.feats {
         out.count(&format!("feat:{}", f));
     }
-    let bytes = match compile_bc(&vs.a, "test", &p.src) {
+    let bytes = match compile_bc(&vs.a, &p.name, &p.src) {
         Ok(b) => b,
         Err(e) => {
             out.oracle_fail(
@@ -1967,7 +2083,7 @@ fn check_program(
         }
     }
     // structural: every field of the compiled module survives
-    match (module_debug_compiled(&vs.a, "test", &p.src), module_debug_loaded(&vs.b, &bytes)) {
+    match (module_debug_compiled(&vs.a, &p.name, &p.src), module_debug_loaded(&vs.b, &bytes)) {
         (Ok(x), Ok(y)) => {
             if x != y {
                 let at = x.bytes().zip(y.bytes()).position(|(a, b)| a != b).unwrap_or(x.len().min(y.len()));
@@ -2001,7 +2117,7 @@ fn check_program(
         targets.push(("new-vm", nv));
     }
     for (which, vm) in &targets {
-        let rb = run_bc(vm, "test", &bytes);
+        let rb = run_bc(vm, &p.name, &bytes);
         if p.helper && !p.prelude && *which == "other-vm" {
             let w = module_globals(&bytes);
             if !w.is_empty() {
@@ -2051,8 +2167,9 @@ fn check_program(
         let wanted = module_globals(&bytes);
         damaged.push((fl, bytes.clone(), replay(json!({"damage": "vm-without-gvmod", "wanted": wanted, "defined": []})), "missing-module", "gvmod".into(), true));
     }
-    // truncations
+    // truncations (the child loads under the module name `test`)
     let n = bytes.len();
+    let (n_trunc, n_corrupt, systematic) = if p.name == "test" { (n_trunc, n_corrupt, systematic) } else { (0, 0, false) };
     for k in 0..n_trunc {
         let cut = match k {
             0 => 0,
@@ -2062,7 +2179,7 @@ fn check_program(
         };
         damaged.push((flags.clone(), bytes[..cut].to_vec(), replay(json!({"damage": "truncate", "at": cut})), "truncate", format!("{}", cut * 10 / n), true));
     }
-    let mut cs = corruptions(rng, &bytes, n_corrupt);
+    let mut cs = if n_corrupt > 0 { corruptions(rng, &bytes, n_corrupt) } else { vec![] };
     if systematic {
         cs.extend(systematic_operands(&bytes));
     }
@@ -2344,6 +2461,7 @@ fn replay_case(out: &mut Out, case: &serde_json::Value) {
         feats: vec![],
         prelude: case["prelude"].as_bool().unwrap_or(false),
         helper: case["helper"].as_bool().unwrap_or(false),
+        name: case["name"].as_str().unwrap_or("test").to_string(),
     };
     let vs = vms(p.prelude, p.helper);
     let mut rng = Rng::new(0, 0);
@@ -2445,7 +2563,7 @@ fn main() {
         for f in files {
             let stem = f.file_stem().unwrap().to_string_lossy().into_owned();
             let (prelude, helper) = (stem.ends_with("_p"), stem.ends_with("_h"));
-            let p = Prog { src: std::fs::read_to_string(&f).unwrap(), feats: vec!["corpus"], prelude, helper };
+            let p = Prog { src: std::fs::read_to_string(&f).unwrap(), feats: vec!["corpus"], prelude, helper, name: "test".into() };
             let vs = vms(prelude, helper);
             check_program(&mut out, &mut rng, &p, &vs, true, &mut damaged, n_trunc, n_corrupt, true);
             out.count("A:corpus-programs");
@@ -2463,6 +2581,23 @@ fn main() {
             check_program(&mut out, &mut rng, &p, &vs, i % 10 == 0, &mut damaged, n_trunc, n_corrupt, i < 3);
             if out.n_oracle_fail != before {
                 // a panic inside a VM poisons its locks: start from new VMs after any failure
+                vs.uses = 1000;
+            }
+        }
+    }
+    // names / strings that need escaping, in every string-carrying position of the module
+    {
+        let n_names = if thorough { 600 } else { 120 };
+        let mut vs = vms(false, false);
+        for i in 0..n_names {
+            if vs.uses >= 100 {
+                vs = vms(false, false);
+            }
+            vs.uses += 1;
+            let p = gen_names(&mut rng);
+            let before = out.n_oracle_fail;
+            check_program(&mut out, &mut rng, &p, &vs, i % 10 == 0, &mut damaged, 2, 3, false);
+            if out.n_oracle_fail != before {
                 vs.uses = 1000;
             }
         }
@@ -2493,5 +2628,7 @@ fn main() {
     stream_c(&mut out, &mut rng_c, if thorough { 4000 } else { 500 });
     let mut rng_y = Rng::new(args.seed, 121212);
     stream_cyc(&mut out, &mut rng_y, if thorough { 300 } else { 60 });
+    let mut rng_t = Rng::new(args.seed, 12121212);
+    stream_text(&mut out, &mut rng_t, if thorough { 5000 } else { 600 });
     out.finish();
 }
